@@ -46,7 +46,9 @@ Bodies == {"bare", "empty_parens", "ident", "two_idents", "unknown_ident", "int_
            \* literals mentioning `_variant` (the enum-level wrapping path of the Display-like derives), bare and wrapped
            "fmt_variant", "fmt_variant_wrap",
            \* list entries with no comma between them
-           "types_nocomma", "forms_nocomma"}
+           "types_nocomma", "forms_nocomma",
+           \* parameters that are paths, not single identifiers: several segments, a leading `::`, a call on a path
+           "path_global", "path_call", "path_generic"}
 
 \* a position only exists on shapes that have it
 HasPosition(shape, pos) ==
